@@ -52,6 +52,37 @@ func genBatchRetry(r *rng, thorough bool, emit func(FlowScenario)) {
 	}
 }
 
+// BIG batches (hundreds to a thousand items): whatever a batch of three items guarantees holds at this size too — sequential, and on
+// a few / many workers (free-running: the item events are compared as a set, slots and post exactly)
+func genBigBatches(r *rng, thorough bool, emit func(FlowScenario)) {
+	t := &tokGen{r: r}
+	sizes := []int{300, 1100}
+	if thorough {
+		sizes = []int{256, 300, 513, 1100, 4100}
+	}
+	for _, nItems := range sizes {
+		for _, conc := range []int{0, 3, 8} {
+			for _, ex := range []string{"res", "any"} {
+				N := 1 + r.intn(2)
+				t.next, t.errN = r.intn(30), r.intn(20)
+				cfg := BatchCfg{Budget: N, Wait: 0, Fb: r.pick([]string{"pass", "custom"}), Conc: conc, Stop: false, ExecS: ex, HasPost: true, Shape: "results",
+					Build: r.pick([]string{"option", "builder", "bare"}), ExecVia: r.pick([]string{"", "copt", "cbuilder"})}
+				bs := BatchScript{N: 0, V: 0, Post: "=done"}
+				bs.Prep = batchItemsPrep(t, "results", nItems)
+				for i := 0; i < nItems; i++ {
+					var m uint = (1 << uint(N+1)) - 1
+					if r.chance(20) {
+						m = uint(r.next()) & ((1 << uint(N+1)) - 1)
+					}
+					bs.Items = append(bs.Items, t.itemScript(m, N+1, r.chance(50), ex))
+				}
+				emit(FlowScenario{Kind: "canceled", Ctx0: "live", Nodes: []NodeDef{{ID: 0, Batch: &cfg}},
+					LeafScripts: []LeafScript{}, BatchScripts: []BatchScript{bs}, Steps: []Step{{Run: ip(0)}}})
+			}
+		}
+	}
+}
+
 // long paths: a self-loop / a two-node cycle taken many more times than any plausible step limit before it exits. The
 // looping visits share one default script per node; only the exiting visit has a script of its own.
 func genLongLoops(r *rng, thorough bool, emit func(FlowScenario)) {
